@@ -22,7 +22,7 @@ POOL = 6
 FUNCS = ['is_none', 'typename', 'rep', 'str2', 'const7', 'ident']
 OPS = ['new_records', 'new_columns', 'new_rows', 'new_empty', 'setitem', 'setitem_from', 'update_from', 'delitem', 'update', 'row', 'col', 'cols_tuple', 'slice',
        'mask', 'take', 'project', 'derive', 'rename', 'do', 'minus', 'copy', 'add', 'iadd', 'add_record', 'add_records', 'add_zero', 'concat', 'sum_rows',
-       'inc', 'exc', 'inc_fn', 'inc_all', 'inc_dict', 'edit_returned', 'apply', 'setitem_reject', 'new_reject', 'update_reject']
+       'inc', 'exc', 'inc_fn', 'inc_all', 'inc_dict', 'edit_returned', 'apply', 'iter_hold', 'setitem_reject', 'new_reject', 'update_reject']
 
 
 class SimCallbackError(Exception):
@@ -115,16 +115,77 @@ PURE = {
 }
 
 
-def make_callable(fname, argnames, counter, raise_at):
-    """a real function whose parameter names are `argnames` (the library binds columns by name)"""
+REENTER = {'fn': None}      # set while an operation runs whose callbacks re-enter the library
+
+
+def _make_reenter(reals, res):
+    """what a user function may do while the library is calling it back: look at tables (the very one being worked on included)
+    and derive new tables from them.  None of it changes any table, so the operation in progress must come out as always."""
+    def reenter(n):
+        if not reals:
+            return
+        t = reals[n % len(reals)]
+        what = (n // max(len(reals), 1)) % 11
+        ks = list(dict.keys(t))
+        if what == 0:
+            len(t), t.shape
+        elif what == 1:
+            [dict(r) for r in t]
+        elif what == 2:
+            if len(t):
+                t[0]
+                t[-1]
+        elif what == 3:
+            t + t
+        elif what == 4:
+            if ks:
+                t[ks[:1]]
+                t[ks[0]]
+        elif what == 5:
+            if ks and all(isinstance(c, str) and len(c) < 6 for c in ks):
+                t.relabel('p_')
+                t.relabel(**{ks[0]: 'zz9'})
+        elif what == 6:
+            t.copy()
+            type(t)(t)
+        elif what == 7:
+            t[lambda **kw: len(kw)]                      # a formula of its own on that table
+        elif what == 8:
+            t(zz9=lambda **kw: 2)
+        elif what == 9:
+            if ks and len(t):
+                v0 = t[ks[0]][0]
+                t.exc(**{ks[0]: v0})
+                t.inc(**{ks[0]: v0})
+        else:
+            t.inc(lambda **kw: True)
+            t.exc(lambda **kw: True)
+        res.probe('callback-reentered-the-library')
+    return reenter
+
+
+LEAKS = []                  # keyword arguments a **kw formula was handed that are not columns of its table
+HELD = []                   # half-consumed row iterators somebody keeps alive
+
+
+def make_callable(fname, argnames, counter, raise_at, extra=None):
+    """a real function whose parameter names are `argnames` (the library binds columns by name); with `extra` (a set) the
+    function also takes **kw, which must then carry exactly the table's other columns"""
     arity, fn = PURE[fname]
 
-    def body(*args):
+    def body(*args, _kw=None):
+        if _kw is not None and set(_kw) != extra:
+            LEAKS.append(sorted(_kw))
         counter[0] += 1
         if raise_at is not None and counter[0] == raise_at:
             raise SimCallbackError('injected at call %d' % raise_at)
+        if REENTER['fn'] is not None:
+            REENTER['fn'](counter[0])
         return fn(*args)
-    src = 'lambda %s: body(%s)' % (', '.join(argnames), ', '.join(argnames))
+    if extra is not None:
+        src = 'lambda %s**kw: body(%s_kw=kw)' % (''.join(a + ', ' for a in argnames), ''.join(a + ', ' for a in argnames))
+    else:
+        src = 'lambda %s: body(%s)' % (', '.join(argnames), ', '.join(argnames))
     return eval(src, {'body': body})
 
 
@@ -140,6 +201,7 @@ def generate(st):
         'cells': sorted(sw.sample(range(len(CELLS)), sw.randint(3, len(CELLS)))),
         'faulty': sw.random() < 0.6,
         'off': sorted(sw.sample(OPS[4:35], sw.randint(0, 8))),
+        'reenter': sw.random() < 0.3,          # user functions called back by the library use the library themselves
     }
     FILTER_DICTS.clear()
     REAL_FILTER_DICTS.clear()
@@ -171,6 +233,8 @@ def generate(st):
     if not cfg['faulty']:
         for o in ('setitem_reject', 'new_reject', 'update_reject'):
             weights.pop(o, None)
+    if 'iter_hold' in weights:
+        weights['iter_hold'] = 0.4
     names = sorted(weights)
 
     def pick_op():
@@ -189,6 +253,10 @@ def generate(st):
         op = _gen_op(o, g, f, cfg, cells, cols, models, rows_n, cell, spec_for)
         if op is None:
             continue
+        if op['op'] in ('setitem', 'setitem_from', 'update', 'update_from', 'delitem') and g.random() < 0.08:
+            op['hold_first'] = g.choice([1, 1, 2])   # somebody starts reading the table row by row, stops half-way and keeps the iterator
+        if cfg.get('reenter') and op['op'] in ('do', 'derive', 'inc_fn', 'apply') and g.random() < 0.5:
+            op['reenter'] = True       # the user functions of this operation look at / derive from live tables while being called
         out = model_apply(op, models)
         if out[0] == 'skip':
             continue
@@ -523,7 +591,11 @@ def _gen_op(o, g, f, cfg, cells, cols, models, rows_n, cell, spec_for):
         ra = None
         if faulty and n and f.random() < 0.3:
             ra = f.randint(1, n)
-        return {'op': o, 't': t, 'fn': fn, 'args': g.sample(m.cols, ar), 'raise_at': ra}
+        return {'op': o, 't': t, 'fn': fn, 'args': g.sample(m.cols, ar), 'raise_at': ra, 'kwform': g.random() < 0.4}
+    if o == 'iter_hold':
+        if not n or not m.cols:
+            return None
+        return {'op': o, 't': t, 'n': g.randint(1, n)}
     if o == 'edit_returned':
         if not m.cols:
             return None
@@ -901,6 +973,10 @@ def model_apply(op, models):
         hit = [all(_filter_match(r[c], v) for c, v in eff.items()) for r in m.rows]
         rows = [r for r, h in zip(m.rows, hit) if (not h if op.get('exc') else h)]
         return ('table', M(m.cols, rows))
+    if o == 'iter_hold':
+        if op['n'] > n:
+            return ('skip',)
+        return ('value', [dict(r) for r in m.rows[:op['n']]])
     if o == 'apply':
         if any(a not in m.cols for a in op['args']) or len(op['args']) != PURE[op['fn']][0] or len(set(op['args'])) != len(op['args']):
             return ('skip',)
@@ -981,6 +1057,7 @@ def execute(trace, ctx=None):
     FILTER_DICTS.clear()
     REAL_FILTER_DICTS.clear()
     pool = []        # list of [model, real]
+    del HELD[:]
     state = {'step': 0}
 
     def models():
@@ -1045,7 +1122,23 @@ def execute(trace, ctx=None):
                 continue
             reals = [p[1] for p in pool]
             ids_before = [[id(dict.__getitem__(d, c)) for c in dict.keys(d)] for d in reals]
-            status, val = lib(lambda: real_apply(op, reals, dictable), op['op'], k)
+            REENTER['fn'] = _make_reenter(list(reals), res) if op.get('reenter') else None
+            del LEAKS[:]
+            if op.get('hold_first') and isinstance(op.get('t'), int) and 0 <= op['t'] < len(reals):
+                try:
+                    it_ = iter(reals[op['t']])
+                    for _ in range(op['hold_first']):
+                        next(it_)
+                    HELD.append(it_)
+                    res.probe('half-read-iterator-kept-across-a-mutation')
+                except StopIteration:
+                    pass
+            try:
+                status, val = lib(lambda: real_apply(op, reals, dictable), op['op'], k)
+            finally:
+                REENTER['fn'] = None
+            if LEAKS:
+                raise Violation('callback-arguments', '%s: a **kw formula was handed the keywords %s, which are not the other columns of its table' % (_short(op), LEAKS[0]), k)
             kind = out[0]
             res.stat('op:' + op['op'])
             # ---------------- expected rejection ----------------
@@ -1352,7 +1445,12 @@ def real_apply(op, reals, dictable):
         return d.exc(flt, **kw) if op.get('exc') else d.inc(flt, **kw)
     if o == 'apply':
         counter = [0]
-        return d[make_callable(op['fn'], op['args'], counter, op.get('raise_at'))]
+        extra = (set(dict.keys(d)) - set(op['args'])) if op.get('kwform') else None
+        return d[make_callable(op['fn'], op['args'], counter, op.get('raise_at'), extra)]
+    if o == 'iter_hold':
+        it = iter(d)
+        HELD.append(it)         # kept alive, never finished: the table must not care
+        return [dict(next(it)) for _ in range(op['n'])]
     if o == 'edit_returned':
         w = op['what']
         if w == 'row':
